@@ -891,6 +891,46 @@ var ruleInspectedGuard = &core.Rule{ID: "R13.2", Min: 2,
 						}
 						bo, ok := r2.(*ssa.BinOp)
 						if !ok {
+							// handed to a verdict function together with the limit: its uses there are judged the same way
+							if hc, isCall := r2.(*ssa.Call); isCall {
+								if h := hc.Call.StaticCallee(); h != nil && core.InMod(h) && h.Blocks != nil && len(h.Params) == len(hc.Call.Args) {
+									limPassed := false
+									for i, a := range hc.Call.Args {
+										if _, isP := a.(*ssa.Parameter); isP && mentionsLimit(a, map[ssa.Value]bool{}) && mentionsLimit(h.Params[i], map[ssa.Value]bool{}) {
+											limPassed = true
+										}
+									}
+									okUses, nUses := limPassed, 0
+									for i, a := range hc.Call.Args {
+										if a != ssa.Value(ex) {
+											continue
+										}
+										for _, r3 := range *h.Params[i].Referrers() {
+											if _, isDbg := r3.(*ssa.DebugRef); isDbg {
+												continue
+											}
+											nUses++
+											b3, isBo := r3.(*ssa.BinOp)
+											if !isBo {
+												okUses = false
+												continue
+											}
+											g3 := false
+											for _, de := range core.DominatingConds(b3.Block()) {
+												if mentionsLimit(de.Cond, map[ssa.Value]bool{}) {
+													g3 = true
+												}
+											}
+											if !g3 {
+												okUses = false
+											}
+										}
+									}
+									s.Check(okUses && nUses > 0, key, c.Pos(r2.Pos()), "handed to "+h.Name()+" with the limit; compared there under a guard on the limit",
+										"the inspected-bytes count is handed to "+h.Name()+", where it is used without a dominating truncated-input guard on the limit")
+									continue
+								}
+							}
 							s.Bad(key, c.Pos(r2.Pos()), "inspected-bytes result used other than in a comparison")
 							continue
 						}
